@@ -269,7 +269,7 @@ Definition obligations (st : pstate) (e : pevent) : list (bool * nat) :=
   | TornTailDrop s => [(match segs st s with Some sg => negb (tail_eqb (tl sg) Writing) | None => false end, 52)]
   | Ack b d => [(b <? next st, 1); (alive st b, 14); (negb d || dp st b, 15)]
   | AckSync => [(forallb (dp st) (need_proc st), 16)]
-  | TableWrite id c => [(match tabs st id with None => true | Some _ => false end, 71); (negb (memb id (mtabs st)), 72)]
+  | TableWrite id c => [(negb (memb id (mtabs st)), 72)]   (* a leftover file outside the manifest may be overwritten *)
   | TableSync id => [(negb (memb id (mtabs st)), 73)]
   | ManifestInstall n ts =>
       [(mi_mono st n, 20); (mi_p7 st ts, 7); (mi_p10 st ts, 10); (mi_p2 st n ts, 2); (mi_p2s st n ts, 21);
@@ -324,6 +324,61 @@ Definition recovery_plain (st : pstate) : list pevent :=
 (* flushing one piece of a replayed segment: the table with coverage c, then the manifest *)
 Definition flush_piece (st : pstate) (id : nat) (c : list (nat * bool)) (n : nat) : list pevent :=
   [TableWrite id c; TableSync id; ManifestInstall n (mtabs st ++ [id])].
+
+(* ------------------------------------------------------------------ recovery with pieces (repaired code) *)
+(* `Core::new`: (1) the WAL writer is opened on max(log_number, highest segment) — a new segment when
+   every existing one is below log_number, else the highest one, whose torn tail is dropped;
+   (2) every segment >= log_number is replayed into memtables, a new memtable ("piece") whenever the
+   current one is full — possibly in the middle of a batch, in which case the full memtable keeps the
+   entries inserted so far and the next one receives the whole batch; (3) if there is more than one
+   piece: every replayed segment is fsynced, then every piece but the last is flushed (table, fsync,
+   manifest), with log_number = segment + 1 exactly when the NEXT piece belongs to a later segment,
+   else log_number unchanged (never lowered); (4) the last piece is the active memtable. *)
+Definition writer_open (st : pstate) : list pevent :=
+  match top_of st (seg_hi st) with
+  | Some a => if mlog st <=? a then recovery_plain st else [WalRotate (mlog st)]
+  | None => [WalRotate (mlog st)]
+  end.
+
+Definition piece := (list (nat * bool) * nat)%type.     (* coverage, segment replayed *)
+
+Definition full_part (l : list nat) : list (nat * bool) := map (fun b => (b, true)) l.
+
+(* cuts = where the memtable filled up: (number of whole batches in the piece, did the next batch
+   start in it?) — any list of cuts is allowed *)
+Fixpoint cut_pieces (l : list nat) (cuts : list (nat * bool)) : list (list (nat * bool)) :=
+  match cuts with
+  | [] => [full_part l]
+  | (n, p) :: cs =>
+      let r := skipn n l in
+      (full_part (firstn n l) ++ (if p then match r with b :: _ => [(b, false)] | [] => [] end else []))
+        :: cut_pieces r cs
+  end.
+
+Definition nonempty {A : Type} (l : list A) : bool := match l with [] => false | _ => true end.
+
+Definition seg_pieces (st : pstate) (cuts : nat -> list (nat * bool)) (s : nat) : list piece :=
+  map (fun c => (c, s)) (filter nonempty (cut_pieces (seg_recs st s) (cuts s))).
+
+Definition split_pieces (st : pstate) (cuts : nat -> list (nat * bool)) : list piece :=
+  flat_map (seg_pieces st cuts) (seq (mlog st) (seg_hi st - mlog st)).
+
+(* flushing all pieces but the last; lg / ts = the manifest as it stands *)
+Fixpoint piece_events (lg : nat) (ts : list nat) (ps : list piece) (ids : list nat) : list pevent :=
+  match ps, ids with
+  | (c, s) :: (((_, s') :: _) as rest), id :: ids' =>
+      let n := Nat.max lg (if s <? s' then S s else s) in
+      [TableWrite id c; TableSync id; ManifestInstall n (ts ++ [id])] ++ piece_events n (ts ++ [id]) rest ids'
+  | _, _ => []
+  end.
+
+Definition recovery_pieces (st : pstate) (ps : list piece) (ids : list nat) : list pevent :=
+  if 1 <? length ps
+  then map WalSync (nodup Nat.eq_dec (map snd ps)) ++ piece_events (mlog st) (mtabs st) ps ids
+  else [].
+
+Definition recovery_full (st : pstate) (cuts : nat -> list (nat * bool)) (ids : list nat) : list pevent :=
+  writer_open st ++ recovery_pieces st (split_pieces st cuts) ids.
 
 (* ------------------------------------------------------------------ executable test oracles *)
 Definition rec_has (full : bool) (r : option (list (nat * bool))) (b : nat) : bool :=
